@@ -27,7 +27,10 @@ CLAIMED = {
             "freshness state, fine-grained generator steps, versions <= 6) and shows the invariants bite with the as-built "
             "defect switch. The labelled graph TLC writes is walked exhaustively to depth 2 (thorough 3) and randomly "
             "beyond on real objects; after each step both views are read on deep copies and TLC takes the specification's "
-            "action, binds the observed content and evaluates readable / views-agree / effect-visible.",
+            "action, binds the observed content and evaluates readable / views-agree / effect-visible / duration-queries-agree. "
+            "Objects the library hands out itself (loader, bar splitter, Bar / Composition, detokenise, split, copy) are "
+            "checked for agreeing views, and every outermost public Sequence call logged while the repository's own tests run "
+            "(quick: four fast files, thorough: the whole suite) is validated against the same protocol by Trace_SeqViewsLog.",
             "Content is abstracted to a value in the model; concrete arguments per operation are fixed in the harness; "
             "histories that interleave a suspended generator with other calls are outside 'legal' (documented by the library).", "4 (C04)"),
     "C14": ("Transpose", "TLC model check of Transpose.tla (message-at-a-time shift/wrap/key system) + execution of its initial "
@@ -174,12 +177,15 @@ CLAIMED = {
             "and TLC requires the untouched side unchanged in both views, views in agreement, and copies equal at derivation.",
             "merge and concatenate share messages with their arguments by design of the library and are outside C16.", "4 (C16)"),
     "C11": ("TickTypes", "TLC model check of TickTypes.tla (numeric-kind abstraction, integer-closed operations, defect switch) + "
-            "every history of its 21 operations executed on integer-tick inputs + TLC trace validation of the observed kinds",
+            "every history of its 27 operations executed on integer-tick inputs + TLC trace validation of the observed kinds "
+            "+ TLC validation of the public Sequence calls logged while the repository's own tests run",
             "The model states which operations are in scope and that each is integer-closed; TLC refutes the as-built "
-            "true-division padding switch. All histories of length <=2 (thorough 3) and random longer ones run on three "
+            "true-division padding switch. All histories of length <=2 (thorough 3) and random longer ones run on six "
             "integer-tick input families; after every step the Python type of every time value in both views of every "
             "live sequence and the numeric fields of every emitted token are logged, and TLC takes the operation and "
-            "requires the kinds to stay {int}, tokens in the vocabulary and views readable.",
+            "requires the kinds to stay {int}, tokens in the vocabulary and views readable. Every outermost public call on a "
+            "Sequence logged during the repository's tests is judged by Trace_TickLog when the object held only integer times "
+            "before and the arguments were integers.",
             "Kinds are observed as Python type names (bool / numpy scalars would be reported under their own names).", "4 (C11)"),
 }
 PENDING = {}
